@@ -950,6 +950,10 @@ class Segment(Geodesic):
         base_ring = utils.guess_literal_ring(end_data)
         dim = end_data.shape[-1]
 
+        # scale to a common time coordinate, so that the difference of
+        # two distinct endpoints is never lightlike
+        end_data = end_data / end_data[..., :1]
+
         products = end_data @ minkowski(
             dim, base_ring=base_ring
         ) @ end_data.swapaxes(-1, -2)
